@@ -210,6 +210,8 @@ func validateUnionCases(env *Environment, errorSink *validation.ErrorSink) *Envi
 				// Check the referenced type with the type arguments provided
 				self.Visit(t.ResolvedDefinition, true)
 			}
+			// the type arguments themselves are written here
+			self.VisitChildren(node, visitingReference)
 		default:
 			self.VisitChildren(node, visitingReference)
 		}
